@@ -232,6 +232,23 @@ static z3::expr diffp(const Term& x, const Term& y) {
 }
 static bool decide(const z3::expr& c0);
 static void path_exit(int kind, const char* msg);
+// ---- syntactic sign: constants registered as positive (inputs created by __sym_new_positive, values of exp/sqrt-free positive functions) ----
+static std::set<unsigned>* posvars; static std::vector<z3::expr>* poskeep;
+static std::map<unsigned, int>* sign_memo;
+static int known_sign(const z3::expr& e) {      // +1 / -1: sign established syntactically on every path; 0: unknown
+  if (e.is_numeral()) return num_sign(e);
+  if (!e.is_app()) return 0;
+  if (e.is_const()) return posvars->count(e.id()) ? 1 : 0;
+  auto it = sign_memo->find(e.id()); if (it != sign_memo->end()) return it->second;
+  Z3_decl_kind k = e.decl().decl_kind(); unsigned na = e.num_args(); int r = 0;
+  if (k == Z3_OP_MUL) { r = 1; for (unsigned i = 0; i < na && r; i++) r *= known_sign(e.arg(i)); }
+  else if (k == Z3_OP_ADD) { r = known_sign(e.arg(0)); for (unsigned i = 1; i < na && r; i++) if (known_sign(e.arg(i)) != r) r = 0; }
+  else if (k == Z3_OP_UMINUS) r = -known_sign(e.arg(0));
+  else if (k == Z3_OP_DIV && na == 2) r = known_sign(e.arg(0)) * known_sign(e.arg(1));
+  else if (k == Z3_OP_POWER && na == 2 && e.arg(1).is_numeral()) { int b = known_sign(e.arg(0)); std::string ps = numstr(e.arg(1)); int pw = atoi(ps.c_str()); r = (ps.find('/') == std::string::npos && pw > 0) ? ((pw % 2) ? b : (b ? 1 : 0)) : 0; }
+  sign_memo->insert({e.id(), r}); poskeep->push_back(e);
+  return r;
+}
 // a / b ; establishes the sign of every numerator factor of b (forks where both signs are feasible)
 static Term tdiv(const Term& a, const Term& b) {
   if (tzero(b)) path_exit(3, "division by zero reachable (REAL mode)");
@@ -239,6 +256,8 @@ static Term tdiv(const Term& a, const Term& b) {
   for (auto& d : b.df) inv.nf.push_back(d.f);
   z3::expr zero = ctx->real_val(0);
   for (auto& f : b.nf) {
+    int ks = known_sign(f);
+    if (ks) { __sync_fetch_and_add(&sh->by_norm, 1); inv.df.push_back(DF{f, ks}); continue; }
     if (decide(f == zero)) path_exit(3, "division by zero reachable (REAL mode)");
     int sg = decide(f > zero) ? 1 : -1;
     inv.df.push_back(DF{f, sg});
@@ -465,18 +484,43 @@ static void inverse_link(const std::string& g, const z3::expr& r, const Term& x)
   lst.push_back(TApp{tr, v, 0.0}); lst.back().h = mk_handle(v);
   mono_axioms(g, lst.back(), true);
 }
+// ---- log-linear terms: t = sum_k c_k log(a_k) with small integer c_k (no constant part).  exp(t) = prod a_k^c_k exactly (a_k > 0 was established
+// when log(a_k) was taken), and t1 < t2  <=>  exp(t1 - t2) < 1.  This keeps log-space algorithms (log-sum-exp, HMM log likelihoods) inside rational functions.
+static bool log_linear(const Term& t, std::vector<std::pair<int, int>>& items) {
+  if (mode != REAL || !t.df.empty() || tzero(t)) return false;
+  auto it0 = tapps->find("log"); if (it0 == tapps->end()) return false;
+  z3::expr e = norm(E(t));
+  std::vector<z3::expr> adds; if (e.is_app() && e.decl().decl_kind() == Z3_OP_ADD) { for (unsigned i = 0; i < e.num_args(); i++) adds.push_back(e.arg(i)); } else adds.push_back(e);
+  for (auto& ad : adds) {
+    if (ad.is_numeral()) { if (!is_zero(ad)) return false; continue; }
+    z3::expr c = ctx->real_val(1), v = ad;
+    if (ad.is_app() && ad.decl().decl_kind() == Z3_OP_MUL && ad.num_args() == 2 && ad.arg(0).is_numeral()) { c = ad.arg(0); v = ad.arg(1); }
+    if (!v.is_const() || v.is_numeral()) return false;
+    std::string nm = v.decl().name().str(); if (nm.rfind("log!", 0) != 0) return false;
+    std::string cs = numstr(c); if (cs.find('/') != std::string::npos || cs.find('.') != std::string::npos) return false;
+    int ci = atoi(cs.c_str()), k = atoi(nm.c_str() + 4); if (ci == 0 || ci > 12 || ci < -12 || k < 0 || k >= (int)it0->second.size()) return false;
+    items.push_back({k, ci});
+  }
+  return !items.empty();
+}
+static Term log_product(const std::vector<std::pair<int, int>>& items) {
+  Term r = tconst(1);
+  for (auto& it : items) { Term a = (*tapps)["log"][it.first].arg; for (int q = 0; q < (it.second < 0 ? -it.second : it.second); q++) r = it.second > 0 ? tmul(r, a) : tdiv(r, a); }
+  return r;
+}
 static double trans_app(const std::string& n, double a) {
   Term ta = T(a);
+  if (n == "exp") { std::vector<std::pair<int, int>> items; if (log_linear(ta, items)) { use_axiom("exp(sum_k c_k log a_k) = prod_k a_k^c_k for integer c_k (a_k > 0)"); return mk_handleT(log_product(items)); } }
   z3::expr x = E(ta);
   z3::expr zero = ctx->real_val(0), one = ctx->real_val(1);
   // domain checks first (may fork / abort)
-  if (n == "log") { if (decide(diffp(ta, tconst(0)) <= zero)) path_exit(3, "log of a non-positive value reachable (REAL mode)"); }
+  if (n == "log") { z3::expr dp = diffp(ta, tconst(0)); if (known_sign(dp) <= 0 && decide(dp <= zero)) path_exit(3, "log of a non-positive value reachable (REAL mode)"); }
   if (n == "atanh") { if (decide(x <= -one || x >= one)) path_exit(3, "atanh outside (-1,1) reachable (REAL mode)"); }
   if (n == "tan") { z3::expr lo = ctx->real_val(PI_LO) / 2; if (decide(x <= -lo || x >= lo)) path_exit(3, "tan outside (-pi/2,pi/2) reachable (REAL mode)"); }
   bool fresh; TApp& ap = get_app(n, ta, fresh);
   if (!fresh) return ap.h;
   z3::expr r = ap.val;
-  if (n == "exp") { use_axiom("exp: exp(x)>0, strictly increasing, exp(0)=1, x>0<=>exp(x)>1, log(exp(x))=x, exp(x)>=1+x");
+  if (n == "exp") { posvars->insert(r.id()); poskeep->push_back(r); use_axiom("exp: exp(x)>0, strictly increasing, exp(0)=1, x>0<=>exp(x)>1, log(exp(x))=x, exp(x)>=1+x");
     add_pc(r > zero); add_pc((x == zero) == (r == one)); add_pc((x > zero) == (r > one)); add_pc(r >= one + x); mono_axioms(n, ap, true); inverse_link("log", r, ta); }
   else if (n == "log") { use_axiom("log: defined on x>0, strictly increasing, log(1)=0, x>1<=>log(x)>0, exp(log(x))=x, log(x)<=x-1");
     add_pc((x == one) == (r == zero)); add_pc((x > one) == (r > zero)); add_pc(r <= x - one); mono_axioms(n, ap, true); inverse_link("exp", r, ta);
@@ -502,6 +546,13 @@ extern "C" {
 double __sym_new_double(const char* name) {
   z3::expr v = ctx->constant(name, *dsort);
   inputs->push_back({name, v});
+  return mk_handle(v);
+}
+double __sym_new_positive(const char* name) {
+  z3::expr v = ctx->constant(name, *dsort);
+  inputs->push_back({name, v});
+  if (mode == REAL) { add_pc(v > ctx->real_val(0)); posvars->insert(v.id()); poskeep->push_back(v); }
+  else add_pc(z3::expr(*ctx, Z3_mk_fpa_gt(*ctx, v, ctx->fpa_val(0.0))));
   return mk_handle(v);
 }
 int __sym_choose(const char* name, int lo, int hi) {
@@ -597,6 +648,10 @@ int __sym_fcmp(int pred, double a, double b) {
     }
     z3::expr p = diffp(T(a), T(b));
     z3::expr zero = ctx->real_val(0);
+    if (!is_zero(p)) { Term d = tadd(T(a), T(b), true); std::vector<std::pair<int, int>> items;
+      if (log_linear(d, items)) { use_axiom("log-linear comparison: sum_k c_k log a_k < 0 <=> prod_k a_k^c_k < 1"); p = diffp(log_product(items), tconst(1)); } }
+    { int ks = is_zero(p) ? 0 : known_sign(p);
+      if (ks) { __sync_fetch_and_add(&sh->by_norm, 1); switch (pred) { case 0: return 0; case 1: case 9: return 0; case 2: case 10: return ks > 0; case 3: case 11: return ks > 0; case 4: case 12: return ks < 0; case 5: case 13: return ks < 0; case 6: case 14: return 1; case 7: return 1; case 8: return 0; default: return 1; } } }
     switch (pred) { case 0: return 0; case 1: case 9: return decide(p == zero); case 2: case 10: return decide(p > zero); case 3: case 11: return decide(p >= zero);
       case 4: case 12: return decide(p < zero); case 5: case 13: return decide(p <= zero); case 6: case 14: return decide(p != zero); case 7: return 1; case 8: return 0; default: return 1; }
   }
@@ -839,7 +894,7 @@ int main(int argc, char** argv) {
   if (getenv("SYM_BUDGET_S")) sh->deadline = now_s() + atof(getenv("SYM_BUDGET_S"));
   ctx = new z3::context();
   if (getenv("SYM_INC_TIMEOUT_MS")) inc_timeout_ms = atoi(getenv("SYM_INC_TIMEOUT_MS"));
-  slv = new z3::solver(*ctx); nl_memo = new std::map<unsigned, bool>(); decided = new std::map<unsigned, bool>(); keep = new std::vector<z3::expr>();
+  slv = new z3::solver(*ctx); nl_memo = new std::map<unsigned, bool>(); decided = new std::map<unsigned, bool>(); keep = new std::vector<z3::expr>(); posvars = new std::set<unsigned>(); poskeep = new std::vector<z3::expr>(); sign_memo = new std::map<unsigned, int>();
   terms = new std::vector<Term>(); somp = new z3::params(*ctx); somp->set("som", true); somp->set("som_blowup", 100000u); somp->set("expand_power", true); somp->set("arith_lhs", true);
   inputs = new std::vector<std::pair<std::string, z3::expr>>(); choices = new std::vector<std::string>(); axioms_used = new std::vector<std::string>();
   ufs = new std::map<std::string, z3::func_decl>(); tapps = new std::map<std::string, std::vector<TApp>>(); sqrt_of = new std::map<std::string, Term>();
